@@ -454,3 +454,8 @@ mod tests {
         assert!(Locations::same(&Location::UNKNOWN).is_none());
     }
 }
+
+// verification hook: bounded-model-checking harnesses (compiled only by Kani, `--cfg kani`)
+#[cfg(kani)]
+#[path = "/verif/harness/h_location.rs"]
+mod verif;
